@@ -133,6 +133,8 @@ def stage1(rep, rng, tier, harness, driver, np_t, ge_t, stats):
             st["escaped_with_unicode_form"] += 1
         for mf, rf in diffs:
             st["mismatch"] += 1
+            if st["mismatch"] > 8:
+                continue
             rep.violation({"property": "C05", "kind": "escape stage: model and implementation differ",
                            "model_function": mf, "rust_entry_point": rf, "string": [ord(c) for c in s], "rust": r,
                            "model": repr(m), "theorem_or_correspondence": "c05_escape / c05_escape_pattern transfer to the code only through this correspondence"},
@@ -150,11 +152,13 @@ def stage1(rep, rng, tier, harness, driver, np_t, ge_t, stats):
         b = res2[k + i].get("like_pattern", {})
         if a.get("ok") != cps:
             st["oracle_failures"] += 1
-            rep.violation({"property": "C05", "kind": "unescape(escape_debug(s)) != s on the implementation", "string": cps,
+            if st["oracle_failures"] <= 5:
+                rep.violation({"property": "C05", "kind": "unescape(escape_debug(s)) != s on the implementation", "string": cps,
                            "escaped": r["escape_debug"], "unescaped": a})
         if b.get("ok") != cps:
             st["oracle_failures"] += 1
-            rep.violation({"property": "C05", "kind": "to_pattern(Display(pattern of literal chars s)) != s on the implementation",
+            if st["oracle_failures"] <= 5:
+                rep.violation({"property": "C05", "kind": "to_pattern(Display(pattern of literal chars s)) != s on the implementation",
                            "string": cps, "displayed": r["pattern_display"], "read_back": b})
     stats["escape_stage"] = st
     return mcmds, mres
